@@ -324,8 +324,8 @@ impl MappingInfo {
             // Ignore any mappings that are wholly contained within
             // mappings in the mapping_info_ list.
             if self.start_address >= user.mapping.start_address
-                && (self.start_address + self.size)
-                    <= (user.mapping.start_address + user.mapping.size)
+                && self.start_address.saturating_add(self.size)
+                    <= user.mapping.start_address.saturating_add(user.mapping.size)
             {
                 return true;
             }
